@@ -18,6 +18,7 @@ import (
 	"encoding/json"
 	"fmt"
 	"os"
+	"path/filepath"
 	"runtime"
 	"sync"
 	"sync/atomic"
@@ -32,6 +33,12 @@ type S = c2.VerifC13State
 
 var out *vh.Out
 var stressOps int64
+
+// modelWitness is what tools/propcfg/c13.py wrote into <out>/witness.json before this run: the
+// atomic shapes atomics2v translated from the c2/state.go under check and, evaluated inside Coq on
+// those generated terms, the three-step schedule [T0.load; T1 runs to completion; T0.rest].  It is
+// attached to the replay of a lost update observed by the stress run (nil when the file is absent).
+var modelWitness interface{}
 
 var bits = c2.VerifC13Bits
 
@@ -66,6 +73,7 @@ func b2u(b bool) uint64 {
 const mixMul = 1000003
 
 func mix(h uint64, x uint32) uint64 { return h*mixMul + uint64(x) + 1 }
+func mix64(h, x uint64) uint64      { return h*mixMul + x + 1 }
 
 type row struct {
 	w                       uint32
@@ -84,6 +92,7 @@ type row struct {
 	closing, value, channel bool
 	proxy, updated          bool
 	dg                      uint64
+	sweep                   []uint32 // Model/State.v sweep: every word left by a call, in order
 }
 
 // evalRow runs every method on copies of w.
@@ -117,6 +126,7 @@ func evalRow(w uint32, gs []uint16) (r row) {
 		r.pv |= b2u(x) << uint(i)
 	}
 	h := mix(0, r.wget)
+	r.sweep = append(r.sweep, r.wget, r.wtag, r.wstop, r.won, r.woff)
 	for _, x := range []uint32{r.wtag, r.wstop, r.won, r.woff} {
 		h = mix(h, x)
 	}
@@ -124,12 +134,14 @@ func evalRow(w uint32, gs []uint16) (r row) {
 		x := S(w)
 		x.Set(m)
 		r.set[i] = word(&x)
+		r.sweep = append(r.sweep, r.set[i])
 		h = mix(h, r.set[i])
 	}
 	for i, m := range bits {
 		x := S(w)
 		x.Unset(m)
 		r.unset[i] = word(&x)
+		r.sweep = append(r.sweep, r.unset[i])
 		h = mix(h, r.unset[i])
 	}
 	for _, gv := range gs {
@@ -137,6 +149,7 @@ func evalRow(w uint32, gs []uint16) (r row) {
 		x.SetLast(gv)
 		r.setlast = append(r.setlast, word(&x))
 		r.lastAfter = append(r.lastAfter, x.Last())
+		r.sweep = append(r.sweep, word(&x))
 		h = mix(h, word(&x))
 	}
 	r.dg = h
@@ -261,6 +274,63 @@ func doRow(w uint32, gs []uint16, class string) {
 	r := evalRow(w, gs)
 	r.oracle()
 	r.emit(class)
+}
+
+// ---- blocks of consecutive flag states (Model/State.v blk_*, block_digest)
+
+var edgeGroups = []uint16{0, 0xFFFF, 1, 0x8000, 0x00FF, 0xFF00}
+
+func edgeGroup(i uint64) uint16  { return edgeGroups[i%6] }
+func blkHash(s, f uint64) uint16 { return uint16(((f + 1) * (2*s + 1) * 40503) >> 3) }
+func blkGroup(s, f uint64) uint16 {
+	if f&3 == 0 {
+		return edgeGroup(f>>2 + s)
+	}
+	return blkHash(s, f)
+}
+func blkArgs(s, f uint64) []uint16 {
+	a := blkHash(s+1, f)
+	if f&7 == 1 {
+		a = blkGroup(s, f)
+	}
+	return []uint16{a, edgeGroup(f + s)}
+}
+
+// doBlock runs the n flag states f0.. through every method (oracle on every row) and emits ONE
+// case carrying the digest of all their results.
+func doBlock(s, f0, n uint64) {
+	var h uint64
+	nontriv := false
+	var first *row
+	for f := f0; f < f0+n; f++ {
+		w := uint32(blkGroup(s, f))<<16 | uint32(f)
+		gs := blkArgs(s, f)
+		func() {
+			defer func() {
+				if x := recover(); x != nil {
+					out.Fail(fmt.Sprintf("a state method panicked: %v", x), "panic", map[string]interface{}{"word": w})
+				}
+			}()
+			r := evalRow(w, gs)
+			r.oracle()
+			h = mix64(h, r.pv|uint64(r.last)<<21)
+			for _, x := range r.sweep {
+				h = mix(h, x)
+			}
+			if first == nil {
+				first = &r
+			}
+		}()
+		out.Count("row", fmt.Sprintf("%x/%x/%x", w, gs[0], gs[1]), f != 0)
+		nontriv = nontriv || f != 0
+	}
+	desc := map[string]interface{}{"block_seed": s, "first_flags": f0, "rows": n, "digest": h,
+		"note": "rows f0..f0+n-1; group half and SetLast arguments derived from the block seed (Model/State.v blk_group, blk_args)"}
+	if first != nil {
+		desc["first_row"] = map[string]interface{}{"word": first.w, "results": first.pv, "last": first.last, "groups": first.gs,
+			"after_tag_stop_on_off": []uint32{first.wtag, first.wstop, first.won, first.woff}}
+	}
+	out.Add(fmt.Sprintf("CBlock 0x%x 0x%x %d 0x%x", s, f0, n, h), "row-block", nontriv, desc)
 }
 
 // applyOp mirrors Model/State.v apply_op: 0 Set 1 Unset 2 SetLast 3 Tag 4 ChannelCanStop 5 SetChannel(true) 6 SetChannel(false)
@@ -416,6 +486,18 @@ func stress(c stressCfg) (ops, lost int64, first *lostInfo) {
 	return
 }
 
+// programs describes what each goroutine of the configuration executes.
+func programs(c stressCfg) []string {
+	var p []string
+	for i, b := range c.Setters {
+		p = append(p, fmt.Sprintf("goroutine %d: loop { Set(0x%x); load, expect bit 0x%x set; Unset(0x%x); load, expect bit 0x%x clear }", i, b, b, b, b))
+	}
+	if c.GroupGoer {
+		p = append(p, fmt.Sprintf("goroutine %d: loop i { g := uint16(i*40503+1); SetLast(g); load, expect high half == g }", len(c.Setters)))
+	}
+	return p
+}
+
 func doStress(c stressCfg) {
 	ops, lost, first := stress(c)
 	n := len(c.Setters)
@@ -428,7 +510,7 @@ func doStress(c stressCfg) {
 	if lost > 0 {
 		out.Fail(fmt.Sprintf("lost update: %d of %d concurrent state operations did not take effect (%d goroutines, each the only writer of its bits)", lost, ops, n),
 			"lost-update", map[string]interface{}{"stress": c, "goroutines": n, "operations": ops, "lost": lost, "first_lost": first,
-				"gomaxprocs": runtime.GOMAXPROCS(0),
+				"gomaxprocs": runtime.GOMAXPROCS(0), "goroutine_programs": programs(c), "model_witness": modelWitness,
 				"how": "each goroutine loops Set(b); check b is set; Unset(b); check b is clear (or SetLast(g); check Last()==g) on ONE shared state word; it is the only writer of b / of the group half"})
 	}
 }
@@ -454,11 +536,11 @@ func pickBits(rng *vh.Rand, n int) []uint32 {
 func main() {
 	fl := vh.ParseFlags()
 	out = vh.NewOut("C13", fl, "From XMT Require Import Base.Prelude Model.State.", "case", "check",
-		"sequential: EVERY one of the 2^16 flag states (group half random/boundary) through every method of the real c2.state, one CRow case per flag state "+
-			"(packed results of the 21 bool-valued calls, Last, the words left by the 4 mutating protocol calls, digest of Set/Unset with each of the 16 single-bit arguments and SetLast); "+
+		"sequential: EVERY one of the 2^16 flag states (group half boundary/hashed) through every method of the real c2.state: the Go-side oracle on every row (class row), and for the model "+
+			"one CBlock case per 64 consecutive flag states carrying the digest of all their results (packed results of the 21 bool-valued calls, Last, the words left by the 4 mutating protocol calls, "+
+			"by Set/Unset with each of the 16 single-bit arguments and by SetLast); single CRow cases with free group values (boundary grid + random); "+
 			"random multi-bit mutator calls (CMut) and random call sequences (CSeq); concurrent (oracle only): tight set/check/unset loops of 2 and 4 goroutines on disjoint bits and SetLast against Set on one shared word; "+
 			"distinct = distinct Coq case term, non-trivial = some flag set / non-zero argument / sequence longer than one call")
-	out.ShardSize = 2048
 	rng := vh.NewRand(fl.Seed)
 	thorough := fl.Tier == "thorough"
 	if runtime.GOMAXPROCS(0) < 4 {
@@ -466,6 +548,12 @@ func main() {
 	}
 	out.Extra("gomaxprocs", runtime.GOMAXPROCS(0))
 	out.Extra("numcpu", runtime.NumCPU())
+
+	if b, err := os.ReadFile(filepath.Join(fl.Out, "witness.json")); err == nil {
+		if json.Unmarshal(b, &modelWitness) == nil {
+			out.Extra("atomic_shapes", modelWitness)
+		}
+	}
 
 	// 0. replay of a recorded lost update, if any
 	if fl.Replay != "" {
@@ -487,7 +575,7 @@ func main() {
 	}
 
 	// 1. concurrent search first (so that a lost update is the first failure recorded)
-	ms := 150
+	ms := 250
 	rounds := 1
 	if thorough {
 		ms, rounds = 3000, 3
@@ -501,27 +589,39 @@ func main() {
 		doStress(stressCfg{Name: "setlast-vs-3-setters", Setters: pickBits(rng, 3), GroupGoer: true, Millis: ms, Init: uint32(rng.U64())})
 	}
 
-	// 2. the complete flag table
+	// 2. the complete flag table: every one of the 2^16 flag states, in blocks of 64 consecutive states
 	passes := 1
 	if thorough {
-		passes = 4
+		passes = 6
 	}
-	edge := []uint16{0, 0xFFFF, 1, 0x8000, 0x00FF, 0xFF00}
+	const blk = 64
+	out.ShardSize = 32 // 32 blocks = 2048 rows per shard
 	for p := 0; p < passes; p++ {
-		for f := uint32(0); f < 1<<16; f++ {
-			var g uint16
-			switch rng.Intn(4) {
-			case 0:
-				g = edge[rng.Intn(len(edge))]
-			default:
-				g = uint16(rng.U64())
-			}
-			gs := []uint16{uint16(rng.U64()), edge[rng.Intn(len(edge))]}
-			if rng.Intn(8) == 0 {
-				gs[0] = g
-			}
-			doRow(uint32(g)<<16|f, gs, "row")
+		seed := rng.U64() & 0xFFFF
+		for f := uint64(0); f < 1<<16; f += blk {
+			doBlock(seed, f, blk)
 		}
+	}
+	out.ShardSize = 2048
+	// 2b. single rows with free group values and arguments: the boundary grid (no flag, every single
+	// flag, all flags, every flag but one; boundary groups) and random rows
+	edge := []uint16{0, 0xFFFF, 1, 0x8000, 0x00FF, 0xFF00}
+	grid := []uint32{0, 0xFFFF}
+	for _, b := range bits {
+		grid = append(grid, b, 0xFFFF&^b, b|bits[bClosed], b|bits[bChannel])
+	}
+	for _, f := range grid {
+		for _, g := range []uint16{0, 0xFFFF, uint16(rng.U64())} {
+			doRow(uint32(g)<<16|f, []uint16{g, edge[rng.Intn(len(edge))], uint16(rng.U64())}, "row-grid")
+		}
+	}
+	nr := 1500
+	if thorough {
+		nr = 30000
+	}
+	for i := 0; i < nr; i++ {
+		gs := []uint16{uint16(rng.U64()), edge[rng.Intn(len(edge))]}
+		doRow(uint32(rng.U64()), gs, "row-random")
 	}
 
 	// 3. mutators with arbitrary arguments (several bits, bits of the other half: the model follows the code)
